@@ -347,6 +347,42 @@ void CloseFile(void) {
 
 /*--- erzeugten Code einer Zeile in Datei ablegen ---------------------------*/
 
+#ifdef FLAMEWING_ASL_RELEASES_VERIF
+/* verification hook (guarded, add-only): one line per emitted ('C'), reserved ('R') or retracted ('X') chunk:
+   kind pass file line segment granularity listgran load-address phase bytes-as-written */
+
+void VerifTraceChunk(char Kind, unsigned ByteLen) {
+    static char const* pName = NULL;
+    static int         Init  = 0;
+    FILE*              pFile;
+    unsigned           z;
+
+    if (!Init) {
+        pName = getenv("ASL_VERIF_CHUNKS");
+        Init  = 1;
+    }
+    if (!pName) {
+        return;
+    }
+    pFile = fopen(pName, "a");
+    if (!pFile) {
+        return;
+    }
+    fprintf(pFile, "%c %d %s %ld %d %d %d %llx %llx ", Kind, (int)PassNo, CurrFileName,
+            (long)CurrLine, (int)ActPC, (int)Granularity(), (int)ActListGran,
+            (unsigned long long)ProgCounter(), (unsigned long long)Phases[ActPC]);
+    if (Kind == 'C') {
+        for (z = 0; z < ByteLen; z++) {
+            fprintf(pFile, "%02x", BAsmCode[z]);
+        }
+    } else {
+        fprintf(pFile, "%u", ByteLen);
+    }
+    fputc('\n', pFile);
+    fclose(pFile);
+}
+#endif /* FLAMEWING_ASL_RELEASES_VERIF */
+
 void WriteBytes(void) {
     Word ErgLen;
 
@@ -357,6 +393,9 @@ void WriteBytes(void) {
     if ((TurnWords != 0) != (HostBigEndian != 0)) {
         DreheCodes();
     }
+#ifdef FLAMEWING_ASL_RELEASES_VERIF
+    VerifTraceChunk('C', ErgLen);
+#endif
     if (((LongInt)LenSoFar) + ((LongInt)ErgLen) > 0xffff) {
         NewRecord(ProgCounter());
     }
@@ -382,6 +421,9 @@ void RetractWords(Word Cnt) {
     Word ErgLen;
 
     ErgLen = Cnt * Granularity();
+#ifdef FLAMEWING_ASL_RELEASES_VERIF
+    VerifTraceChunk('X', ErgLen);
+#endif
     if (LenSoFar < ErgLen) {
         WrError(ErrNum_ParNotPossible);
         return;
